@@ -246,6 +246,36 @@ let do_succ (p : Position.pos) : string =
                              ^ (if WF.wf_legal p' then "" else ":NOTWF")))) legal in
     "OK|" ^ sorted_join rows
 
+(* PROTO: a run of the two-thread transition system of Protocol.v; tokens as written by `verifh proto` *)
+let rec int_of_nat = function O -> 0 | S n -> 1 + int_of_nat n
+let proto_obs (s : Protocol.pstate) : string =
+  let intr, ph = (match s.Protocol.sp with
+    | Protocol.SIdle -> 0, "I" | Protocol.SSpawned -> 0, "S"
+    | Protocol.SRunning (i, _) -> (if i then 1 else 0), "R" | Protocol.SFinishing -> 0, "F") in
+  Printf.sprintf "%d,%d,%d,%d,%d,%s" (if s.Protocol.running then 1 else 0) (match s.Protocol.chan with Some _ -> 1 | None -> 0)
+    (int_of_nat s.Protocol.bestmoves) (int_of_nat s.Protocol.readyoks) intr ph
+let do_proto (tokens : string list) : string =
+  let labels = function
+    | "isready" -> [Protocol.LIsReady] | "other" -> [Protocol.LOther]
+    | "stop" -> [Protocol.LStopLoad; Protocol.LStopSend]
+    | "go" -> [Protocol.LGoDrain; Protocol.LGoStore; Protocol.LGoSpawn]
+    | "enter" -> [Protocol.LEnter] | "poll" -> [Protocol.LPoll]
+    | "complete" -> [Protocol.LComplete] | "print" -> [Protocol.LPrint]
+    | _ -> [] in
+  let out = ref [] in
+  let rec go s k = function
+    | [] -> ()
+    | "obs" :: r -> out := proto_obs s :: !out; go s (k + 1) r
+    | t :: r ->
+      let rec steps s = function
+        | [] -> Some s
+        | l :: ls -> (match Protocol.step s l with Some s' -> steps s' ls | None -> None) in
+      (match steps s (labels t) with
+       | Some s' -> go s' (k + 1) r
+       | None -> out := (Printf.sprintf "STUCK at token %d (%s): label not enabled in the model" k t) :: !out) in
+  go Protocol.init 0 tokens;
+  Stdlib.String.concat "|" (Stdlib.List.rev !out)
+
 let handle (line : string) : string =
   match Stdlib.String.split_on_char '\t' line with
   | ["POS"; fen] -> (match load_fen fen with Error e -> e | Stdlib.Ok p -> do_pos p)
@@ -311,6 +341,7 @@ let handle (line : string) : string =
        | Base.Panic w -> panic_text w
        | Base.Ok (v, s) -> Printf.sprintf "OK|%d|%d" (int_of_z v) (if s then 1 else 0)))
   | ["TIME"; side; args] -> do_time side args
+  | ["PROTO"; toks] -> do_proto (Stdlib.String.split_on_char ' ' toks)
   | _ -> "BADREQ"
 
 exception Timeout
